@@ -1047,10 +1047,18 @@ func ruleC01Rewrap(p *Prog, a *Anchors, r *Report) {
 					if ex, isEx := cond.(*ssa.Extract); isEx && ex.Index == 1 && !pol && isAssertOf(ex) {
 						return true
 					}
-					if bo, isBo := cond.(*ssa.BinOp); isBo && !pol {
+					if bo, isBo := cond.(*ssa.BinOp); isBo {
+						// "it has no position": inner.Line > 0 (or != 0) on its false edge, == 0 on its true edge
 						if u, isU := bo.X.(*ssa.UnOp); isU {
-							if fa, isFA := u.X.(*ssa.FieldAddr); isFA && isAssertOf(fa.X) {
-								return true
+							if fa, isFA := u.X.(*ssa.FieldAddr); isFA && isAssertOf(fa.X) && fieldName(fa.X.Type(), fa.Field) == "Line" {
+								if k, isK := constInt(bo.Y); isK && k == 0 {
+									switch bo.Op {
+									case token.GTR, token.NEQ:
+										return !pol
+									case token.EQL, token.LEQ:
+										return pol
+									}
+								}
 							}
 						}
 					}
